@@ -135,64 +135,7 @@ def _mk_merge(ncls, nd, ns):
 
 
 # ------------------------------------------------------------------ native replay (scripted trait implementations)
-REPLAY_PRELUDE = r'''
-use anyhow::{anyhow, Result};
-use similari::track::notify::ChangeNotifier;
-use similari::track::{
-    MetricOutput, MetricQuery, NoopLookup, Observation, ObservationMetric, ObservationsDb, Track, TrackAttributes,
-    TrackAttributesUpdate, TrackStatus,
-};
-use std::sync::atomic::{AtomicI64, AtomicUsize, Ordering};
-use std::sync::Arc;
-
-// scripted environment: the k-th callback (0-based, counted over apply / attribute merge / optimize) fails
-static CALLS: AtomicI64 = AtomicI64::new(0);
-static FAIL_AT: AtomicI64 = AtomicI64::new(-1);
-fn callback(name: &str) -> Result<()> {
-    let k = CALLS.fetch_add(1, Ordering::SeqCst);
-    if k == FAIL_AT.load(Ordering::SeqCst) { Err(anyhow!("scripted failure in {}", name)) } else { Ok(()) }
-}
-
-#[derive(Clone, Debug, PartialEq, Default)]
-struct TA { v: u64 }
-#[derive(Clone)]
-struct Upd;
-impl TrackAttributesUpdate<TA> for Upd {
-    fn apply(&self, a: &mut TA) -> Result<()> { a.v += 1000; callback("apply") }
-}
-impl TrackAttributes<TA, f32> for TA {
-    type Update = Upd;
-    type Lookup = NoopLookup<TA, f32>;
-    fn compatible(&self, _o: &TA) -> bool { true }
-    fn merge(&mut self, _o: &TA) -> Result<()> { self.v += 7; callback("attr_merge") }
-    fn baked(&self, _o: &ObservationsDb<f32>) -> Result<TrackStatus> { Ok(TrackStatus::Ready) }
-}
-#[derive(Clone, Default, Debug, PartialEq)]
-struct M { state: u64 }
-impl ObservationMetric<TA, f32> for M {
-    fn metric(&self, _mq: &MetricQuery<'_, TA, f32>) -> MetricOutput<f32> { None }
-    fn optimize(&mut self, _cls: u64, _hist: &[u64], attrs: &mut TA, obs: &mut Vec<Observation<f32>>, _prev: usize, _is_merge: bool) -> Result<()> {
-        self.state += 1; attrs.v += 1; obs.push(Observation::new(Some(99.0), None));
-        callback("optimize")
-    }
-}
-#[derive(Clone, Default)]
-struct Notif { n: Arc<AtomicUsize> }
-impl ChangeNotifier for Notif { fn send(&mut self, _id: u64) { self.n.fetch_add(1, Ordering::SeqCst); } }
-
-type T = Track<TA, M, f32, Notif>;
-fn snapshot(t: &T, classes: &[u64]) -> (TA, Vec<Option<Vec<Option<f32>>>>, Vec<u64>) {
-    (t.get_attributes().clone(),
-     classes.iter().map(|c| t.get_observations(*c).map(|v| v.iter().map(|o| *o.attr()).collect())).collect(),
-     t.get_merge_history().clone())
-}
-fn build(id: u64, classes: &[u64], notif: &Notif) -> T {
-    FAIL_AT.store(-1, Ordering::SeqCst);
-    let mut t = T::new(id, M::default(), TA::default(), notif.clone());
-    for c in classes { t.add_observation(*c, Some(*c as f32), None, None).unwrap(); }
-    t
-}
-'''
+from replaylib import REPLAY_PRELUDE
 
 
 def _replay_merge(cex, v, vm):
@@ -304,3 +247,8 @@ MIR = [
        "4 requested classes, dest 2 / source 2 classes (symbolic keys), flag, history length 1..2, every fault position", [T + "merge"],
        spec_calls=track_callbacks, replay=_replay_merge, max_paths=2000000, timeout=3400),
 ]
+
+
+# store level ("store add, merge_external and merge_owned" of the property): the same obligations that C09 registers
+import C09 as _c09
+MIR += [q for q in _c09.MIR if q.name.startswith(('c09_add_missing_', 'c09_add_existing_', 'c09_merge_external_', 'c09_merge_owned_')) and q.name.endswith(('_1', '_2', '_1_2', '_2_2'))]
